@@ -162,11 +162,10 @@ def directed_chain(rng, kind, svcs, rules):
     if kind == "value-recase-after-noop":
         # an unchanged reload first (every node has then been compared once), then an edit that only changes the letter case of a
         # value: class names and glob patterns are case-sensitive data
-        base = copy.deepcopy(r0)
-        base[0]["class"] = "Users"
         key = rng.choice(["class", "account", "hostname", "username"])
         vals = {"class": ("Users", "users"), "account": ("Ali*", "ali*"), "hostname": ("*.Example.org", "*.example.org"), "username": ("Joe", "joe")}[key]
-        base[0][key] = vals[0]
+        # the edited rule sorts first and has nothing but this criterion, so that the probes it should (not) match show it
+        base = [{"name": "00first", "class": "Users", key: vals[0]}] + [r for r in copy.deepcopy(r0) if r["name"].lower() != "00first"]
         r1 = copy.deepcopy(base)
         r1[0][key] = vals[1]
         sv_ = [(a, pa), (b, pb)]
